@@ -238,3 +238,21 @@ def c17(ctx, t0):
     return finish(ctx, 'exploration', res, COMMON_ASSUME + [
         'the zxcvbn library is trusted: the property defines the policy by it; the reference calls zxcvbn.PasswordStrength(pw, [user, "whawty"]) itself and applies the configured comparison',
         'condition strings in a common number syntax other than plain decimal (1e9, 40.5, +3, 03, 0x..) may be refused or accepted, but if accepted must be enforced with the written value'], floors, t0)
+
+
+@plan('C19')
+def c19(ctx, t0):
+    res = []
+    if want(ctx, 'hooks'):
+        res.append(ovl_stage(ctx, 'hooks', 'TestVerifC19', T(ctx, 900, 5400)))
+    floors = {'timing_runs': (counters(res, 'timing_runs'), 30), 'rounds_observed': (counters(res, 'rounds_observed'), 40), 'eligibility_files_checked': (counters(res, 'eligibility_files_checked'), 40),
+              'wiring_steps': (counters(res, 'wiring_steps'), 20), 'requests_completed_while_hook_hangs': (counters(res, 'requests_completed_while_hook_hangs'), 100),
+              'distinct_event_sequences': (counters(res, 'distinct_event_sequences'), 6)}
+    if ctx.tier == 'thorough':
+        floors['boundary_order:second-notify-before-timer'] = (counters(res, 'boundary_order:second-notify-before-timer'), 1)
+        floors['boundary_order:second-notify-after-timer'] = (counters(res, 'boundary_order:second-notify-after-timer'), 1)
+        floors['kill_observed'] = (counters(res, 'kill_observed'), 1)
+    return finish(ctx, 'exploration', res, COMMON_ASSUME + [
+        'the guarantee is decided on the sequence-numbered event log of the hook goroutine (logical order), not on deadlines; the only timing rule is one-sided (a timer never fires early)',
+        '"every change is followed by a start of every eligible hook" is checked after quiescence, i.e. after the timer event that follows the last notification (watchdog 20 x rate limit: expiry = inconclusive)',
+        'the checks run as root: permission bits are evaluated as the code does (mode bits), not by the kernel'], floors, t0)
